@@ -163,7 +163,7 @@ fn compare_borrowed(text: &[u8]) -> Result<(), Fail> {
 const NUM_NEARMISS: &[&str] = &[
     "127", "128", "-128", "-129", "255", "256", "-1", "32767", "32768", "-32768", "-32769", "65535", "65536", "2147483647", "2147483648", "-2147483648", "-2147483649", "4294967295", "4294967296", "9223372036854775807", "9223372036854775808", "-9223372036854775808",
     "-9223372036854775809", "18446744073709551615", "18446744073709551616", "170141183460469231731687303715884105727", "170141183460469231731687303715884105728", "-170141183460469231731687303715884105728", "-170141183460469231731687303715884105729", "340282366920938463463374607431768211455",
-    "340282366920938463463374607431768211456", "1.0", "1e2", "1E2", "-0", "0.0", "-0.0", "1.5", "1e400", "-1e400", "12345678901234567890123456789012345678901", "0.1", "3.4028236e38", "1e39", "5e-324", "1e-400", "1.7976931348623157e308", "00", "01", "1.", ".5", "+1", "0x10", "1_000", "NaN", "Infinity",
+    "340282366920938463463374607431768211456", "9007199254740993.00000000000000000000000000000000000000000000000000000000000000000000000000000000000000000000000000000000000000000000000000000000000000000000000000000000000000000000000000000000000000000000000000000000000000000000000000000000000000000000000000000000000000000000000000000000000000000000000000000000000000000000000000000000000000000000000000000000000000000000000000000000000000000000000000000000000000000000000000000000000000000000000000000000000000000000000000000000000000000000000000000000000000000000000000000000000000000000000000000000000000000000000000000000000000000000000000000000000000000000000000000000000000000000000000000000000000000000000000000000000000000000000000000000000000000000000000000000000000000000000000000000000000000000000000000000000000000000000000000000000000000000000000000000000000", "1.0", "1e2", "1E2", "-0", "0.0", "-0.0", "1.5", "1e400", "-1e400", "12345678901234567890123456789012345678901", "0.1", "3.4028236e38", "1e39", "5e-324", "1e-400", "1.7976931348623157e308", "00", "01", "1.", ".5", "+1", "0x10", "1_000", "NaN", "Infinity",
 ];
 const OTHER_KIND: &[&str] = &["null", "true", "false", "\"x\"", "\"\"", "[]", "{}", "[1]", "{\"a\":1}", "\"\\u00e9\\n\"", "\"\\ud83d\\ude00\"", "\"\\ud800\"", "\"\\udc00x\"", "\"1\"", "\"Alpha\"", "\"Unit\"", "\"g\\\"amma\"", "[null]", "[[]]", "\"a\\u0000b\""];
 const KEY_DECOR: &[&str] = &["\" 1\"", "\"01\"", "\"+1\"", "\"1.0\"", "\"1e0\"", "\"\"", "\"-\"", "\"1 \"", "\"-0\"", "\"256\"", "\"-129\"", "\"true\"", "\"True\"", "\"a\"", "\"\\u0031\"", "\"1\"", "\"0\"", "\"-1\"", "\"18446744073709551616\"", "\"zz\"", "\"t\"", "\"c\"", "\"x-y\"", "\"Alpha\"", "\"id\"", "\"340282366920938463463374607431768211456\"", "\"\\u0061\""];
@@ -333,6 +333,15 @@ pub fn damage(src: &mut Src, text: &[u8]) -> (Vec<u8>, &'static str) {
                     val.extend_from_slice(feat);
                     val.resize(val.len() + tail, b'b');
                     val.push(b'"');
+                }
+                3 if src.bool() => {
+                    // a long number with a damaged tail (both libraries must refuse it, also when skipped)
+                    let n = *src.pick(&[1usize, 15, 16, 17, 30, 31, 32, 33, 34, 62, 63, 64, 65, 66, 100]);
+                    for i in 0..n {
+                        val.push(b'1' + (i % 9) as u8);
+                    }
+                    let tail: &[u8] = *src.pick(&[&b".5.5"[..], b".5e5e5", b".5", b"", b"e5", b".", b"e", b"e+", b".e5", b".5e", b"-", b".5-", b".5x", b"..5", b"e5.5", b".25.0000000"]);
+                    val.extend_from_slice(tail);
                 }
                 3 => val = gens::gen_many_small(src),
                 4 => val = crate::lazyhelp::gen_bracket_stress(src),
